@@ -1,5 +1,5 @@
 import sys, itertools
-sys.path.insert(0, '/tmp/ag_distlast')
+import os; sys.path.insert(0, os.path.join(os.path.dirname(os.path.abspath(__file__)), '..', '..'))
 from c3d_explore import setup, tr
 from harness import regen_dist as D
 
